@@ -64,7 +64,7 @@ func c09SeqHistory(rep *verifkit.Report, rng *rand.Rand, dir string, idx int) {
 	hour := &atomic.Uint32{}
 	hour.Store(400000 + uint32(rng.Intn(100000)))
 	m := &c09Model{Hours: map[uint32]*c09Hour{}, Cur: hour.Load(), LimitH: c09PickLimit(rng, 0), Enabled: true}
-	allowDisable := rng.Intn(100) < 15
+	allowDisable := rng.Intn(100) < 25
 	nClients := []int{3, 40, 300}[rng.Intn(3)]
 	nDomains := []int{5, 60, 250}[rng.Intn(3)]
 	nSteps := 25 + rng.Intn(36)
@@ -85,6 +85,7 @@ func c09SeqHistory(rep *verifkit.Report, rng *rand.Rand, dir string, idx int) {
 
 	var (
 		rollovers, rolloversWithData, restarts, limitChanges, resets, nonzeroReads int
+		restartsWhileDisabled                                                      int
 		hourlyReads, dailyReads, crossings                                         int
 		violated                                                                   bool
 	)
@@ -309,18 +310,76 @@ func c09SeqHistory(rep *verifkit.Report, rng *rand.Rand, dir string, idx int) {
 			rep.Class("reset")
 		case x < 94 && allowDisable:
 			var p string
-			if m.Enabled {
+			if m.Enabled && rng.Intn(100) < 45 {
+				// Switch off, restart cleanly while off, switch on again.
+				// Switching statistics off stops counting; the counts
+				// collected while they were on stay inside the retention
+				// window and "survive clean restarts", so they must be
+				// reported once statistics are on again.
+				st.Op = "disable-restart-enable"
+				desc := "PUT enabled=false"
+				p = in.setConfigNew(m.LimitH, false)
+				if p == "" {
+					for i, n := 0, rng.Intn(6); i < n; i++ {
+						in.update(c09ValidEntry(rng, nClients, nDomains))
+						rep.Event("updates_while_disabled")
+					}
+					variant := rng.Intn(4)
+					if variant == 1 { // hour boundary before the restart, noticed
+						st.Advance = 1 + uint32(rng.Intn(3))
+						hour.Add(st.Advance)
+						in.flush()
+						desc += fmt.Sprintf("; hour +%d, flush()", st.Advance)
+					} else if variant == 2 { // hour boundary before the restart, not noticed
+						st.Advance = 1 + uint32(rng.Intn(3))
+						hour.Add(st.Advance)
+						desc += fmt.Sprintf("; hour +%d", st.Advance)
+					}
+					desc += "; Close + New(Enabled=false)"
+					if cp := in.close(); cp != "" {
+						steps = append(steps, st)
+						in = nil
+						violate("seq:close-failed", "Close failed: "+cp, nil)
+						continue
+					}
+					in, err = c09Open(file, hour, m.LimitH, false, false)
+					if err != nil {
+						steps = append(steps, st)
+						in = nil
+						violate("seq:new-failed:restart-while-disabled", "stats.New failed on the file a clean Close left: "+err.Error(), nil)
+						continue
+					}
+					if variant == 3 { // hour boundary after the restart, while still off
+						k := 1 + uint32(rng.Intn(3))
+						st.Advance += k
+						hour.Add(k)
+						in.flush()
+						desc += fmt.Sprintf("; hour +%d, flush()", k)
+					}
+					m.Cur = hour.Load()
+					m.expire()
+					restarts++
+					restartsWhileDisabled++
+					rep.Class(fmt.Sprintf("disable-restart-enable:variant-%d", variant))
+					desc += "; PUT enabled=true"
+					p = in.setConfigNew(m.LimitH, true)
+				}
+				st.API = desc
+			} else if m.Enabled {
 				st.Op = "disable"
 				if rng.Intn(2) == 0 {
+					// Nothing says that switching statistics off through
+					// the configuration removes what has been collected.
 					st.API = "PUT /control/stats/config/update"
 					p = in.setConfigNew(m.LimitH, false)
 				} else {
+					// The deprecated API documents interval 0 as "disable
+					// and clear": kept or cleared, both accepted.
 					st.API = "POST /control/stats_config interval=0"
 					p = in.setConfigOld(0)
+					m.markAllMaybe()
 				}
 				m.Enabled = false
-				// Whether disabling keeps the collected data is not stated.
-				m.markAllMaybe()
 				rep.Class("disable")
 			} else {
 				st.Op = "enable"
@@ -348,6 +407,7 @@ func c09SeqHistory(rep *verifkit.Report, rng *rand.Rand, dir string, idx int) {
 	rep.EventN("rollovers", rollovers)
 	rep.EventN("rollovers_persisting_a_nonempty_unit", rolloversWithData)
 	rep.EventN("restarts", restarts)
+	rep.EventN("restarts_while_disabled_then_enabled", restartsWhileDisabled)
 	rep.EventN("limit_changes", limitChanges)
 	rep.EventN("resets", resets)
 	rep.EventN("reads_hourly_units", hourlyReads)
@@ -383,6 +443,7 @@ func TestVerifC09Sequential(t *testing.T) {
 	}
 	for _, ev := range []string{"rollovers_persisting_a_nonempty_unit", "restarts", "limit_changes", "resets",
 		"reads_hourly_units", "reads_daily_units", "counted_hours_leaving_window", "updates_not_countable",
+		"restarts_while_disabled_then_enabled",
 		"sure_nonzero_hours_compared"} {
 		if rep.EventCount(ev) == 0 && !rep.Violated() {
 			rep.Inconcl("event never observed: " + ev)
